@@ -92,16 +92,20 @@ def symbolic_simulator_modules():
             setattr(spne, n, v)
 
 
-def check_stable_timestep_forwarding(K, sim, dim, dx, nu, cfl):
+def check_stable_timestep_forwarding(K, sim, dim, dx, nu, cfl, after_step=False):
     """C16 at the simulator level: compute_stable_timestep(dt_prefac) must hand the WHOLE velocity
     field, a grid-shaped scratch array, the simulator's dx / cfl / viscosity / dimension to the
     (separately proved) compute_advection_diffusion_stable_timestep and scale its result by dt_prefac."""
     sym = K.mode == "sym"
     calls = []
+    # after_step: the same contract once a time step has been taken (call history): the recommended step may depend
+    # on the public state only (C18: nothing remembered from earlier steps or earlier recommendations)
+    tag = "_after_a_step" if after_step else ""
+    props = ("C16", "C18") if after_step else ("C16",)
     if sym:
         from svx.field import _same_spec
         from svx.sym import Sym
-        ret = Sym.R("stable_dt_of_callee")
+        ret = Sym.R("stable_dt_of_callee" + tag)
     else:
         ret = 0.37109375  # replay on the compiled code: the callee is recorded the same way, with real arrays
 
@@ -114,7 +118,7 @@ def check_stable_timestep_forwarding(K, sim, dim, dx, nu, cfl):
         importlib.import_module(m)
     mods = [sys.modules[m] for m in FLOW_MODS if hasattr(sys.modules[m], "compute_advection_diffusion_stable_timestep")]
     saved = [(m, m.compute_advection_diffusion_stable_timestep) for m in mods]
-    prefac = K.real("dt_prefac", pos=True)
+    prefac = K.real("dt_prefac" + tag, pos=True)
     try:
         for m in mods:
             m.compute_advection_diffusion_stable_timestep = summary
@@ -122,7 +126,7 @@ def check_stable_timestep_forwarding(K, sim, dim, dx, nu, cfl):
     finally:
         for m, f in saved:
             m.compute_advection_diffusion_stable_timestep = f
-    K.ensures("stable_timestep_calls_the_proved_function_once", len(calls) == 1, props=("C16",))
+    K.ensures("stable_timestep_calls_the_proved_function_once" + tag, len(calls) == 1, props=props)
     if len(calls) != 1:
         return
     kw = calls[0]
@@ -137,13 +141,13 @@ def check_stable_timestep_forwarding(K, sim, dim, dx, nu, cfl):
         whole = (isinstance(v, np.ndarray) and v.shape == u.shape and v.strides == u.strides
                  and v.__array_interface__["data"][0] == u.__array_interface__["data"][0])
         ok_mag = isinstance(mag, np.ndarray) and mag.shape == u.shape[1:] and not np.shares_memory(mag, u)
-    K.ensures("stable_timestep_sees_the_whole_velocity_field", whole, props=("C16",))
-    K.ensures("stable_timestep_scratch_is_grid_shaped_and_disjoint", ok_mag, props=("C16",))
-    K.ensures_eq("stable_timestep_dx", kw.get("dx"), dx, props=("C16",))
-    K.ensures_eq("stable_timestep_viscosity", kw.get("kinematic_viscosity"), nu, props=("C16",))
-    K.ensures_eq("stable_timestep_cfl", kw.get("cfl"), cfl, props=("C16",))
-    K.ensures("stable_timestep_dimension", kw.get("grid_dim") == dim, props=("C16",))
-    K.ensures_eq("stable_timestep_scales_with_prefactor", out, ret * prefac, props=("C16",))
+    K.ensures("stable_timestep_sees_the_whole_velocity_field" + tag, whole, props=props)
+    K.ensures("stable_timestep_scratch_is_grid_shaped_and_disjoint" + tag, ok_mag, props=props)
+    K.ensures_eq("stable_timestep_dx" + tag, kw.get("dx"), dx, props=props)
+    K.ensures_eq("stable_timestep_viscosity" + tag, kw.get("kinematic_viscosity"), nu, props=props)
+    K.ensures_eq("stable_timestep_cfl" + tag, kw.get("cfl"), cfl, props=props)
+    K.ensures("stable_timestep_dimension" + tag, kw.get("grid_dim") == dim, props=props)
+    K.ensures_eq("stable_timestep_scales_with_prefactor" + tag, out, ret * prefac, props=props)
 
 
 def position_classes(K, c, shape, R, tier_full=False):
@@ -296,6 +300,7 @@ def navier_stokes_2d_time_step(K, with_forcing, with_free_stream, width):
         scratch(K, sim.stream_func_field)
         kw = dict(free_stream_velocity=U) if with_free_stream else {}
         sim.time_step(dt, **kw)
+        check_stable_timestep_forwarding(K, sim, 2, dx, nu, cfl, after_step=True)
     if sym:
         # ---- the Poisson solver is constructed and called as its contract requires ---------------------
         solver = PoissonStub.instances[0]
@@ -406,6 +411,7 @@ def navier_stokes_3d_time_step(K, with_forcing, with_free_stream, width, filt, s
         scratch(K, sim.stream_func_field)
         kw = dict(free_stream_velocity=U) if with_free_stream else {}
         sim.time_step(dt, **kw)
+        check_stable_timestep_forwarding(K, sim, 3, dx, nu, cfl, after_step=True)
     if sym:
         from svx.sym import Sym, mk_atom
         stub = PoissonStub.instances[0]
@@ -491,6 +497,7 @@ def passive_transport_time_step(K, dim, field_type):
         u0 = set_state(K, sim.velocity_field, "velocity0")
         scratch(K, sim.buffer_scalar_field)
         sim.time_step(dt)
+        check_stable_timestep_forwarding(K, sim, dim, dx, nu, cfl, after_step=True)
     K.ensures_eq("time_advances_by_dt", sim.time, t0 + dt)
     if sym:
         K.ensures("no_poisson_solver_involved", len(PoissonStub.instances) == 0)
